@@ -2902,7 +2902,7 @@ THEOREMS = [
     'C12.thetaOf_halfplanes', 'C12.iso_strain_is_symgrad_deriv', 'C12.iso_stress_div_free_deriv',
     # units: the same problem in another length / stiffness unit (repo fixes 540bb56, fc87dd0)
     'C12.length_unit_covariant', 'C12.length_unit_displacement', 'C12.stiffness_unit_eigen', 'C12.stiffness_unit_covariant',
-    'C12.stroh_checks_unit_invariant',
+    'C12.stroh_checks_unit_invariant', 'C12.iso_unit_covariant', 'C12.iso_length_unit_displacement',
     # object level: no hidden state, no aliasing (repo fixes 0c58045, 14f01a1)
     'C12.history_read', 'C12.arg_edits_invisible', 'C12.scale_edit_read',
     # entry point solve_volterra_dislocation; what the isotropic solver accepts (repo fix 9765d33)
